@@ -121,7 +121,11 @@ def make_spec(pop, kind, mask):
     trans.append(focal)
     trans += [T("a", "b", ("tob",)), T("a", "c", ("toc",)), T("b", "a", ("back",)),
               T("c", "a", ("back",))]
-    m = M(states=states, trans=tuple(trans), provided=tuple(provided), listeners=("L1",))
+    # every coroutine callback really suspends once (await point), so that phases which are
+    # started concurrently or out of order show up in the begin/end markers
+    awaits = tuple((("sm" if p == "dec" else p), n, 1) for (p, n, f) in provided if f)
+    m = M(states=states, trans=tuple(trans), provided=tuple(provided), listeners=("L1",),
+          awaits=awaits)
     return m
 
 
